@@ -249,10 +249,68 @@ def _driver(chk: Check) -> None:
                 chk.fail(rule, inst, construct, f"{jb['cause']} at slot {jb['slot']}: the same stream accepts the next batch, but what was written is {'invalid: ' + str(p['ref_errors'][:2]) if p['ref_errors'] else 'decoded differently: ' + pipejob.first_diff(got, want)}; calls: {p['log']}")
 
 
+def _ns_after_failure(chk: Check) -> None:
+    """After a rejected statement the other writing method of the stream, namespace_declaration, must refuse as well (or
+    leave a valid stream)."""
+    from ..values import Atom, sstr
+
+    rule = "C20.EFFECT.exception-safety"
+    for integ in ("generic", "rdflib"):
+        for physical in (1, 2):
+            arity = 3 if physical == 1 else 4
+
+            def scenario(it: Interp) -> dict:
+                k = K.Kit(it)
+                opts = P.make_options(k, logical=None, preset=(8, 8, 8), frame_size=250, namespaces=True, generalized=True, rdf_star=integ == "generic")
+                if integ == "generic":
+                    stream = k.stream(P.STREAM_FOR[physical], k.generic_encoder(k.attr(opts, "lookup_preset")), opts)
+                else:
+                    stream = k.method(k.get(K.ST, P.STREAM_FOR[physical]), "for_rdflib", opts)
+                k.method(stream, "enroll")
+                meth = "triple" if physical == 1 else "quad"
+                a, b = C.base("a", arity), C.base("b", arity)
+                b[2] = BAD
+                log = []
+                frames: list = []
+                for label, st in (("ok", a), ("bad", b)):
+                    try:
+                        fr = k.method(stream, meth, tuple(_build(k, integ, t) for t in st))
+                        if isinstance(fr, Msg):
+                            frames.append(fr)
+                        log.append(("returned", label))
+                    except PyRaise as pr:
+                        log.append(("raised", label, it.exc_class_name(pr.exc)))
+                ns = sstr(Atom("late.scheme", nosep=True), "/", Atom("late.path", nosep=True), "#")
+                try:
+                    k.method(stream, "namespace_declaration", "late", ns)
+                    log.append(("returned", "namespace_declaration"))
+                except PyRaise as pr:
+                    log.append(("raised", "namespace_declaration", it.exc_class_name(pr.exc)))
+                fr = k.method(k.attr(stream, "flow"), "to_stream_frame")
+                if isinstance(fr, Msg):
+                    frames.append(fr)
+                ref = refdec.decode(it.schema, frames)
+                return {"log": log, "ref_errors": ref.errors, "statements": len([x for x in ref.items if x[0] != "ns"])}
+
+            inst = f"{integ} physical={physical}: namespace_declaration after a rejected statement"
+            for it, out in explore(chk.program, scenario, max_paths=8, generic_strings=True):
+                chk.paths += 1
+                if out[0] != "ok":
+                    chk.fail(rule, inst, "pyjelly.serialize.streams.Stream.namespace_declaration:driver", f"raises outside the calls: {it.exc_class_name(out[1].exc)} at {out[1].site}")
+                    continue
+                p = out[1]
+                refused = any(l[0] == "raised" and l[1] == "namespace_declaration" for l in p["log"])
+                if refused or (not p["ref_errors"] and p["statements"] == 1):
+                    chk.ok(rule, inst, {"calls": p["log"]})
+                else:
+                    chk.fail(rule, inst, "pyjelly.serialize.streams.Stream.namespace_declaration:dirty-state-after-exception", f"after the rejected statement namespace_declaration is accepted and the stream written is invalid or decodes differently: {p['ref_errors'][:2]} ({p['statements']} statements); calls: {p['log']}")
+
+
 def check(chk: Check) -> None:
     chk.part("driver", lambda: _driver(chk))
     rule = "C20.EFFECT.exception-safety"
     chk.rule(rule, "after a statement is rejected with an exception and the caller carries on, the frames written are valid and decode to exactly the accepted statements (or the stream refuses further use)", floor=80)
+    chk.part("namespace-after-failure", lambda: _ns_after_failure(chk))
     chk.rule("C20.EFFECT.rejection-raises", "each unencodable statement is actually rejected with an exception", floor=80)
     chk.trusted += ["jstat.refdec (specification decoder)", "protobuf message model"]
     chk.undecided += ["every position of arbitrary concrete sequences (one failing statement between accepted ones is analysed, at every slot and for every cause)"]
